@@ -10,6 +10,7 @@ import (
 	"os"
 	"os/exec"
 	"path/filepath"
+	"sort"
 	"strings"
 	"sync"
 	"time"
@@ -157,6 +158,19 @@ func solve(o *Obligation, cfg *SolverCfg) {
 		}
 		cancel()
 	}
+	if res != "sat" && res != "unsat" && o.Expect == "unsat" && o.Kind != "cover" {
+		// stage 3: a conjunctive goal is decided conjunct by conjunct. reach && !(A && B) is
+		// unsatisfiable iff reach && !A and reach && !B both are; a model of either part is a
+		// model of the whole.
+		if r3, out3, name3, ok := solveSplit(o, cfg, file); ok {
+			res, out, solver = r3, out3, name3
+			if res == "sat" {
+				if b, err := os.ReadFile(file); err == nil {
+					text = string(b)
+				}
+			}
+		}
+	}
 	o.Seconds = time.Since(start).Seconds()
 	o.Result, o.Solver, o.Output = res, solver, out
 	if res == "sat" && o.Expect == "unsat" {
@@ -175,6 +189,163 @@ func solve(o *Obligation, cfg *SolverCfg) {
 		b, _ := json.Marshal(cacheEntry{res, solver, o.Seconds})
 		os.WriteFile(cfile, b, 0o644)
 	}
+}
+
+// splitGoal returns reach and the conjuncts of cond for a goal "(and reach (not cond))".
+func splitGoal(goal string) (string, []string) {
+	top := sexprArgs(goal)
+	if len(top) != 3 || top[0] != "and" {
+		return "", nil
+	}
+	neg := sexprArgs(top[2])
+	if len(neg) != 2 || neg[0] != "not" {
+		return "", nil
+	}
+	var out []string
+	var rec func(t string)
+	rec = func(t string) {
+		a := sexprArgs(t)
+		if len(a) >= 2 && a[0] == "and" {
+			for _, c := range a[1:] {
+				rec(c)
+			}
+			return
+		}
+		out = append(out, t)
+	}
+	rec(neg[1])
+	if len(out) < 2 {
+		return "", nil
+	}
+	return top[1], out
+}
+
+// sexprArgs splits "(f a b ...)" into [f a b ...] at the top level (nil for an atom).
+func sexprArgs(s string) []string {
+	s = strings.TrimSpace(s)
+	if len(s) < 2 || s[0] != '(' || s[len(s)-1] != ')' {
+		return nil
+	}
+	s = s[1 : len(s)-1]
+	var out []string
+	depth, start := 0, -1
+	inBar, inStr := false, false
+	flush := func(i int) {
+		if start >= 0 {
+			out = append(out, s[start:i])
+			start = -1
+		}
+	}
+	for i := 0; i < len(s); i++ {
+		c := s[i]
+		switch {
+		case inBar:
+			if c == '|' {
+				inBar = false
+			}
+		case inStr:
+			if c == '"' {
+				inStr = false
+			}
+		case c == '|':
+			inBar = true
+			if start < 0 {
+				start = i
+			}
+		case c == '"':
+			inStr = true
+			if start < 0 {
+				start = i
+			}
+		case c == '(':
+			if start < 0 {
+				start = i
+			}
+			depth++
+		case c == ')':
+			depth--
+			if depth < 0 {
+				return nil
+			}
+		case c == ' ' || c == '\n' || c == '\t':
+			if depth == 0 {
+				flush(i)
+			}
+		default:
+			if start < 0 {
+				start = i
+			}
+		}
+	}
+	if depth != 0 || inBar || inStr {
+		return nil
+	}
+	flush(len(s))
+	return out
+}
+
+func solveSplit(o *Obligation, cfg *SolverCfg, file string) (res, out, solver string, ok bool) {
+	reach, parts := splitGoal(o.Goal)
+	if parts == nil {
+		return
+	}
+	var prefix strings.Builder
+	prefix.WriteString(smtPrelude)
+	for _, l := range o.em.Lines[:o.Pos] {
+		prefix.WriteString(l)
+		prefix.WriteByte('\n')
+	}
+	used := map[string]bool{}
+	for i, p := range parts {
+		pf := fmt.Sprintf("%s.part%d.smt2", strings.TrimSuffix(file, ".smt2"), i)
+		os.WriteFile(pf, []byte(prefix.String()+"(assert (and "+reach+" (not "+p+")))\n(check-sat)\n"), 0o644)
+		r, ro, name := "timeout", "", "none"
+		st1 := 2 * time.Second
+		if cfg.Timeout < st1 {
+			st1 = cfg.Timeout
+		}
+		r, ro = runOne(context.Background(), solvers[0], pf, st1)
+		name = solvers[0].name
+		if r != "sat" && r != "unsat" {
+			ctx, cancel := context.WithCancel(context.Background())
+			type rr struct{ res, out, name string }
+			ch := make(chan rr, len(solvers))
+			for _, sd := range solvers {
+				go func(sd solverDef) {
+					a, b := runOne(ctx, sd, pf, cfg.Timeout)
+					ch <- rr{a, b, sd.name}
+				}(sd)
+			}
+			for j := 0; j < len(solvers); j++ {
+				x := <-ch
+				if x.res == "sat" || x.res == "unsat" {
+					r, ro, name = x.res, x.out, x.name
+					break
+				}
+			}
+			cancel()
+		}
+		switch r {
+		case "unsat":
+			used[name] = true
+			os.Remove(pf)
+		case "sat":
+			// the sub-goal's file becomes the obligation's file (model extraction, replay)
+			os.Rename(pf, file)
+			return "sat", ro, name, true
+		default:
+			if os.Getenv("GOVC_KEEPPARTS") == "" {
+				os.Remove(pf)
+			}
+			return
+		}
+	}
+	var names []string
+	for n := range used {
+		names = append(names, n)
+	}
+	sort.Strings(names)
+	return "unsat", "", fmt.Sprintf("split(%d):%s", len(parts), strings.Join(names, "+")), true
 }
 
 func firstLines(s string, n int) string {
